@@ -17,10 +17,14 @@ fn run<A: Automaton>(aut: &A, hay: &[u8], s: usize, e: usize, an: bool, is_dfa: 
     let _ = aut.try_find(&Input::new(hay).span(s..e).anchored(a));
     let (tr, fl, nonmono) = aho_corasick::verif::count::read();
     let (same_start_run, decreases) = memchr::model_scan_order();
-    let bad = tr > e - s || nonmono != 0 || fl > tr || (is_dfa && fl != 0) || decreases != 0 || same_start_run > 2;
+    let (lo, hi) = memchr::model_scan_range();
+    let base = hay.as_ptr() as usize;
+    let outside = lo != 0 && (lo < base + s || hi > base + e);
+    let bad = tr > e - s || nonmono != 0 || fl > tr || (is_dfa && fl != 0) || decreases != 0 || same_start_run > 2 || outside;
     println!(
-        "work: transitions={} (span {}), failure links={}, non-monotone steps={}, prefilter scans from one offset in a row={}, scans starting earlier than their predecessor={} -> {}",
+        "work: transitions={} (span {}), failure links={}, non-monotone steps={}, prefilter scans from one offset in a row={}, scans starting earlier than their predecessor={}, prefilter scanned offsets {}..{} of span {}..{} -> {}",
         tr, e - s, fl, nonmono, same_start_run, decreases,
+        if lo == 0 { 0 } else { lo - base }, if lo == 0 { 0 } else { hi - base }, s, e,
         if bad { "VIOLATION REPRODUCES" } else { "agrees" }
     );
     bad as i32
